@@ -5,7 +5,7 @@
     instance on every run. *)
 From Coq Require Import NArith ZArith QArith Qabs List Bool.
 From SV Require Import Bin.Struct Fmt.DmxCodes Fmt.DmxCodesProofs Fmt.DmxBin Fmt.DmxBinProofs Fmt.DmxKv1 Fmt.DmxKv1Proofs
-  Fmt.DmxScalar Fmt.DmxScalarProofs Fmt.DmxTyped Fmt.DmxTypedProofs Text.Str Text.Escape Text.Tokenizer Text.TokGen Fmt.DmxKv2 Fmt.DmxKv2Proofs Fmt.DmxKv2Nested Fmt.DmxKv2NestedProofs Fmt.DmxKv2Inst Num.Dec6 Fmt.DmxValText Fmt.DmxValTextProofs Gen.DmxCodes_gen.
+  Fmt.DmxScalar Fmt.DmxScalarProofs Fmt.DmxTyped Fmt.DmxTypedProofs Text.Str Text.Escape Text.Tokenizer Text.TokGen Fmt.DmxKv2 Fmt.DmxKv2Proofs Fmt.DmxKv2Nested Fmt.DmxKv2NestedProofs Fmt.DmxKv2Inst Num.Dec6 Fmt.DmxValText Fmt.DmxValTextProofs Fmt.DmxHeader Fmt.DmxHeaderProofs Gen.DmxCodes_gen.
 Import ListNotations.
 
 (** The premises of the theorems below, for the configuration generated from today's source.  The check proves
@@ -15,7 +15,8 @@ Definition c14_instance_premises : bool :=
   rtable_ok gen_ref_scalar && rtable_ok gen_ref_array &&
   kv2_tables_ok gen_tables && kv2_opts_ok gen_kv2_opts && vtnames_ok gen_tables gen_fold gen_vtnames &&
   float_text_cfg_ok gen_float_fmt && vec_text_components_ok gen_vec_text_written gen_vec_text_read &&
-  color_text_ok gen_color_text_written gen_color_text_read.
+  color_text_ok gen_color_text_written gen_color_text_read &&
+  hdr_bin_ok gen_hdr && hdr_kv2_ok gen_hdr && hdr_modes_ok gen_hdr.
 
 (** The attribute type byte: encode then decode gives back the value type and the scalar/array flag, for all 14
     types and both shapes. *)
@@ -309,3 +310,19 @@ Theorem kv2_vector_text_needs_separator :
   let xs := [{| dneg := false; dm := 1; de := 0%Z |}; {| dneg := false; dm := 2; de := 0%Z |}] in
   parse_parts (fun c => (c =? 32)%N) 2 (concat (map (format6 dmx_float_cfg) xs)) = None.
 Proof. exact vec_text_needs_separator. Qed.
+
+(** * The three unicode modes *)
+
+(** In every mode ('ascii', 'format' = marked with [unicode_] in the header, 'silent' = UTF-8 without marker, to be read
+    with [unicode=True]) [Element.parse] decodes strings with the codec the exporter encoded them with, for the binary
+    and the KeyValues2 form — for every configuration of marker / codec choices meeting the two named conditions.
+    This is what instantiates the codec parameters [cenc] / [cdec] of [dmx_bin_roundtrip] consistently. *)
+Theorem unicode_mode_codec_agreement : forall c, hdr_bin_ok c = true -> hdr_kv2_ok c = true ->
+  forall m, reader_bin_utf8 c m = hb_utf8 c m /\ reader_kv2_utf8 c m = hk_utf8 c m.
+Proof. exact codec_agreement_gen. Qed.
+Theorem unicode_mode_premises_satisfiable : hdr_bin_ok pinned_hdr && hdr_kv2_ok pinned_hdr && hdr_modes_ok pinned_hdr = true.
+Proof. exact hdr_example. Qed.
+(** A writer that forgets the marker in 'format' mode is refuted: the reader would decode UTF-8 data as ASCII. *)
+Theorem unicode_marker_forgotten_refuted :
+  (hdr_bin_ok unmarked_hdr = false) /\ (reader_bin_utf8 unmarked_hdr UFormat = false) /\ (hb_utf8 unmarked_hdr UFormat = true).
+Proof. exact hdr_unmarked_refuted. Qed.
